@@ -29,10 +29,10 @@ type Session struct {
 	Ad    Adapter
 
 	clock   int
-	after   []int64          // after[k]: a real instant at which the spec clock was k
-	commit  map[int]int64    // commit[k]: real commit time of the write that moved the clock to k
+	after   []int64           // after[k]: a real instant at which the spec clock was k
+	commit  map[int]int64     // commit[k]: real commit time of the write that moved the clock to k
 	ids     map[string]uint64 // abstract entity -> internal id (learned from writes)
-	tokens  map[int]uint64   // reader id -> real token
+	tokens  map[int]uint64    // reader id -> real token
 	Divs    []Divergence
 	Checks  int // number of compared answers
 	Skipped int // queries not asked (outside what the reference defines)
@@ -46,9 +46,9 @@ func NewSession(w *World, h *Header, tag string, table Table, ad Adapter) *Sessi
 	return s
 }
 
-func (s *Session) DsReal(n string) string { return n + "-" + s.Tag }
-func (s *Session) EntCurie(e string) string { return s.W.EntP + ":" + e + "-" + s.Tag }
-func (s *Session) EntURI(e string) string   { return EntNS + e + "-" + s.Tag }
+func (s *Session) DsReal(n string) string    { return n + "-" + s.Tag }
+func (s *Session) EntCurie(e string) string  { return s.W.EntP + ":" + e + "-" + s.Tag }
+func (s *Session) EntURI(e string) string    { return EntNS + e + "-" + s.Tag }
 func (s *Session) PredCurie(p string) string { return s.W.PredP + ":" + p }
 func (s *Session) PredURI(p string) string   { return PredNS + p }
 
